@@ -255,6 +255,8 @@ pub(crate) enum ExprErrorKind {
     UnexpectedValueForSignal(String, OutputValue),
     #[error("Division by zero")]
     DivisionByZero,
+    #[error("The function {0} is not implemented")]
+    FunctionNotImplemented(&'static str),
 }
 
 /// Could not construct static iterator
